@@ -46,6 +46,71 @@ def agree(R, ctx):
     R.require(rid, "floor:assignments", n >= 3, "", "%d node rewrites checked (floor 3)" % n)
 
 
+def inject_shapes(R, ctx):
+    """inject_global_value as a transfer function: each way of naming the global is rewritten exactly when that name is not shadowed."""
+    from .. import peval
+    from ..peval import make, Enum, NONE, PySet
+    rid = "C17.inject"
+    lib = ctx.lib
+    R.rule(rid, "ValueInjection's expression and prefix callbacks, evaluated from their typed tree on `DEBUG`, `_G.DEBUG`, `_G['DEBUG']` (and "
+                "`DEBUG` in prefix position) with a scope tracker that does / does not hold the root name (`DEBUG`, resp. `_G`): the node is "
+                "replaced exactly when the root name is free, and other names (`OTHER`, `_G.OTHER`, `t.DEBUG`) are never touched. Every "
+                "shape is decided on its own: a guard present for one spelling does not excuse another")
+    N = "nodes::"
+    EXPR, PREFIX, ID = N + "expressions::Expression", N + "expressions::prefix::Prefix", N + "identifier::Identifier"
+    TR = "process::scope_visitor::IdentifierTracker"
+    f_expr = lib.fn("<%s as process::node_processor::NodeProcessor>::process_expression" % VI)
+    f_pref = lib.fn("<%s as process::node_processor::NodeProcessor>::process_prefix_expression" % VI)
+    tr_new = lib.fn(TR + "::new")
+    sets = [f["name"] for f in lib.adts.get(TR, {"variants": [{"fields": []}]})["variants"][0]["fields"] if "HashSet<alloc::string::String>" in f["tys"]]
+    if not R.require(rid, "anchor:callbacks", f_expr is not None and tr_new is not None and len(sets) == 1 and VI in lib.adts, "", "ValueInjection callbacks / IdentifierTracker layout not found"):
+        return
+
+    def ident(n):
+        return make(lib, ID, {"name": n, "token": NONE})
+
+    def field(root, name):
+        return Enum(EXPR, "Field", {"0": make(lib, N + "expressions::field::FieldExpression", {"prefix": Enum(PREFIX, "Identifier", {"0": ident(root)}), "field": ident(name), "token": NONE})})
+
+    def index(root, name):
+        s_ = make(lib, N + "expressions::string::StringExpression", {"value": list(name.encode()), "token": NONE})
+        return Enum(EXPR, "Index", {"0": make(lib, N + "expressions::index::IndexExpression", {"prefix": Enum(PREFIX, "Identifier", {"0": ident(root)}), "index": Enum(EXPR, "String", {"0": s_}), "tokens": NONE})})
+    shapes = [("DEBUG", lambda: Enum(EXPR, "Identifier", {"0": ident("DEBUG")}), f_expr, "DEBUG", True),
+              ("_G.DEBUG", lambda: field("_G", "DEBUG"), f_expr, "_G", True),
+              ("_G['DEBUG']", lambda: index("_G", "DEBUG"), f_expr, "_G", True),
+              ("OTHER", lambda: Enum(EXPR, "Identifier", {"0": ident("OTHER")}), f_expr, "OTHER", False),
+              ("_G.OTHER", lambda: field("_G", "OTHER"), f_expr, "_G", False),
+              ("t.DEBUG", lambda: field("t", "DEBUG"), f_expr, "t", False),
+              ("t['DEBUG']", lambda: index("t", "DEBUG"), f_expr, "t", False)]
+    if f_pref is not None:
+        shapes.append(("DEBUG (prefix)", lambda: Enum(PREFIX, "Identifier", {"0": ident("DEBUG")}), f_pref, "DEBUG", True))
+    over_by_type = {}
+    for f in lib.adts[VI]["variants"][0]["fields"]:
+        over_by_type[f["name"]] = f["tys"]
+    for label, build, fn, root, is_target in shapes:
+        for shadowed in (False, True):
+            pe = peval.PEval(lib, ctx.an)
+            try:
+                tr = pe.call_fn(tr_new, [])
+                if shadowed:
+                    tr.fields[sets[0]] = [PySet([root])]
+                over = {}
+                for name, ty in over_by_type.items():
+                    over[name] = "DEBUG" if ty == "alloc::string::String" else (tr if ty == TR else (Enum(EXPR, "True", {"0": NONE}) if ty == EXPR else None))
+                vi = make(lib, VI, {k: v for k, v in over.items() if v is not None})
+                node = build()
+                before = repr(node)
+                pe.call_fn(fn, [vi, node])
+                replaced = repr(node) != before
+                unknown = [w for w in pe.unknown_reasons if w.startswith(("branch on unknown", "match on unknown"))]
+            except peval.OutOfFuel:
+                replaced, unknown = None, ["no termination"]
+            want = is_target and not shadowed
+            R.ob(rid, "%s|%s" % (label, "root shadowed" if shadowed else "root free"), replaced is want and not unknown, ctx.where(fn),
+                 "%s" % ("replaced" if want else "left alone") if replaced is want and not unknown else
+                 "`%s` with `%s` %s is %s (expected %s) %s" % (label, root, "bound by a local / parameter" if shadowed else "free", "REPLACED" if replaced else "left alone", "replaced" if want else "left alone", unknown[:1]))
+
+
 def _matcher_values(ctx):
     """Every matcher handed to RemoveFunctionCallProcessor::new in the library: [(label, value for peval, site)]."""
     from ..peval import FnItem, Struct
@@ -299,6 +364,7 @@ def run(R, ctx):
     R.assumptions += ["Evaluator::has_side_effects is trusted as an analysis here (its table is checked under C08)"]
     c05.shadow_rule(R, ctx, "C17.shadow", (VI, RFCP), "injection/removal")
     agree(R, ctx)
+    inject_shapes(R, ctx)
     matchers(R, ctx)
     args(R, ctx)
     keep(R, ctx)
